@@ -633,7 +633,10 @@ fn run_one(name: &str, a: u64, b: u64, c: u64) -> Out {
 		_ => Out::new("unknown", name2.clone()),
 	}));
 	match r {
-		Ok(o) => o,
+		Ok(mut o) => {
+			o.params = format!("{} {} {} {}", name, a, b, c);
+			o
+		},
 		Err(e) => {
 			let msg = if let Some(s) = e.downcast_ref::<String>() {
 				s.clone()
@@ -663,23 +666,19 @@ fn main() {
 	let reps = if thorough { 60 } else { 6 };
 	for _ in 0..reps {
 		for kind in 0..4u64 {
-			let mut o = run_one("line", kind, rng.next(), rng.below(6));
-			o.params = format!("line {}", o.params);
+			let o = run_one("line", kind, rng.next(), rng.below(6));
 			o.print();
 		}
 		for kind in 0..2u64 {
-			let mut o = run_one("mpp", kind, rng.below(3), rng.next());
-			o.params = format!("mpp {}", o.params);
+			let o = run_one("mpp", kind, rng.below(3), rng.next());
 			o.print();
 		}
 		for stage in 0..3u64 {
-			let mut o = run_one("reconnect", stage, rng.next(), rng.below(3));
-			o.params = format!("reconnect {}", o.params);
+			let o = run_one("reconnect", stage, rng.next(), rng.below(3));
 			o.print();
 		}
 		for h in 0..2u64 {
-			let mut o = run_one("reload", h, rng.next(), rng.below(3));
-			o.params = format!("reload {}", o.params);
+			let o = run_one("reload", h, rng.next(), rng.below(3));
 			o.print();
 		}
 	}
